@@ -121,6 +121,15 @@ def worker_main(argv):
     prop = load_prop(pid)
     rng = random.Random(f"{seed}/{shard}")
     cases = prop.gen(rng, tier, n, shard, nshards)
+    if shard == 0:
+        # the coverage corpus runs first: one generated case per (control-flow edge, hit-count) of y0 that the generator has been seen to reach
+        # (tools/mkcovcorpus.py); ordinary cases, decided like every other
+        try:
+            corpus = json.load(open(os.path.join(os.path.dirname(os.path.abspath(__file__)), "corpus", f"{pid}.json")))
+        except (OSError, ValueError):
+            corpus = []
+        have = {json.dumps(c, sort_keys=True) for c in cases}
+        cases = [c for c in corpus if json.dumps(c, sort_keys=True) not in have] + cases
     broken = install_graph_monitors()
     with open(outfile, "w") as fh:
         for case in cases:
